@@ -307,7 +307,7 @@ def cases(rng, tier):
     capped (per finding id) so that they cannot crowd out a new failure; corpus/C36 holds their witnesses"""
     seen = {}
     for line in all_cases(rng, tier):
-        fid = classify(line, None, None)
+        fid = known_class(line)
         if fid:
             seen[fid] = seen.get(fid, 0) + 1
             if seen[fid] > KNOWN_CLASS_CAP:
@@ -317,7 +317,7 @@ def cases(rng, tier):
 
 def shrink(line):
     """inputs already inside a known-finding class are identified by their shape: no minimisation needed"""
-    if classify(line, None, None):
+    if known_class(line):
         return iter(())
     from vf.run import default_shrink
     return default_shrink(line)
@@ -517,8 +517,8 @@ def _payload_of(line):
     return None, None
 
 
-def classify(line, impl, why):
-    """narrow: the finding ids are returned for exactly the input classes of the two known defects"""
+def known_class(line):
+    """narrow: the finding ids are returned for exactly the input classes of the known defects (decided by the input alone)"""
     w = line.split(" ")
     pay, which = _payload_of(line)
     if pay is None:
@@ -532,6 +532,16 @@ def classify(line, impl, why):
             head = clear.split(b"\x00")[0]
             if b"\r" not in head and b"\n" not in head:
                 return "C36-nul-truncation"
+    return None
+
+
+def classify(line, impl, why):
+    fid = known_class(line)
+    if fid:
+        return fid
+    # anything else is new: group the reports by the kind of failure (an id that is not a known finding is a violation)
+    if why and not why.startswith("model and implementation"):
+        return "new/" + why.split(":")[0][:60]
     return None
 
 
@@ -575,8 +585,12 @@ RULE = ("x: every byte string of the given length (all chunkings of the encoder 
 TRUSTED = ["modelled, not verified: encode_raw's backward pointer walk is modelled as a forward recursion over 3-byte groups; "
            "C integer promotions are transcribed by hand (unsigned short/char stores as mod 65536/256)",
            "python's base64 module and the RFC 4648 regular expression inside the oracle",
-           "the link of the harness follows the squid binary's own link line with main.o replaced (tests/stub_main_cc.o)"]
-ASSUMPTIONS = ["white space = the six characters the decode table marks (HT LF VT FF CR SP) and may appear anywhere in base64 input",
+           "the Basic path runs the real auth/libauth.la (User, UserRequest, Basic::User, CredentialsCache) and the instrumented "
+           "src/auth/basic/Config.cc on top of the link line of tests/testHttpRequest; Helper::Client::Make and "
+           "aclCacheMatchFlush (never reached / empty list) are stand-ins inside the harness"]
+ASSUMPTIONS = ["inputs of the known-finding classes are capped at %d per finding and run (the framework examines at most 40 failing "
+               "cases per run); their witnesses are in corpus/C36" % KNOWN_CLASS_CAP,
+               "white space = the six characters the decode table marks (HT LF VT FF CR SP) and may appear anywhere in base64 input",
                "auth_param basic utf8 is off (the default); header values are C strings (no NUL)",
                "C locale for isgraph/isspace/tolower"]
 MANIFEST = {
